@@ -263,26 +263,14 @@ def year_range_rule(R, lib, ob):
 def floor_rule(R, lib, ob):
     """epoch seconds -> epoch days is a floor division written with truncating '/': (es < 0) ? (es + 1) / 86400 - 1 : es / 86400,
     in both LocalDate::forEpochSeconds and LocalDateTime::forEpochSeconds."""
-    from .rules_C05 import _days_expr
+    from .rules_C05 import floor_days
     R.rule('R6', 'epoch seconds -> epoch days is the floor quotient by 86400 (truncating division corrected for negative values)', floor=2)
     for q in ('ace_time::LocalDate::forEpochSeconds', 'ace_time::LocalDateTime::forEpochSeconds'):
         f = lib.fn(q)
-        qe = _days_expr(f)
-        E_ = Poly.atom(('sym', f.params[0][0]))
-        ok = False
-        why = 'no "days" quotient found'
-        if qe is not None:
-            why = 'quotient is %r' % qe
-            at = qe.atoms()
-            if len(qe.t) == 1 and len(at) == 1:
-                a = next(iter(at))
-                if a[0] == 'cond':
-                    cnd, neg, pos = _P(a[1]), _P(a[2]), _P(a[3])
-                    want_c = Poly.atom(('cmp', '<', E_.key(), Poly.const(0).key()))
-                    ok = (cnd == want_c and pos == Poly.atom(('tdiv', E_.key(), Poly.const(86400).key())) and
-                          neg == Poly.atom(('tdiv', (E_ + Poly.const(1)).key(), Poly.const(86400).key())) - Poly.const(1))
-        ob('R6', f.name, f.loc, ok, why + ', not (es < 0) ? (es + 1) / 86400 - 1 : es / 86400: for a negative multiple of 86400 (midnight before 2000) '
-           'the truncating quotient is already the floor and subtracting one lands on the previous day')
+        ok, why, n = floor_days(lib, q)
+        R.instance('R6', f.name, f.loc, '%d instants evaluated' % n)
+        if not ok:
+            R.violation('R6', f.name, f.loc, why)
 
 
 def localtime_pairing(R, lib, ob):
